@@ -93,6 +93,22 @@ class Outcome:
         return (tuple(segs), self.exit)
 
 
+_KERNEL_STORES = ('self.store', 'self.stores', 'self.packets_available', 'self.cwnd_avaialbe', 'self.store.')
+
+
+def _hands_over(target: str) -> bool:
+    """a call that gives a packet to another element: <something>.put(..) that is not one of the element's own kernel
+    stores"""
+    if not target.endswith('.put'):
+        return False
+    recv = target[:-4]
+    if recv in ('self.store', 'self.packets_available', 'self.cwnd_avaialbe') or recv.startswith('self.stores'):
+        return False
+    if recv.startswith('super()'):
+        return False
+    return True
+
+
 def outcome_of(p: Path, view: View, in_loop: bool = False) -> Outcome:
     o = Outcome()
     for e in p.effects:
@@ -106,6 +122,13 @@ def outcome_of(p: Path, view: View, in_loop: bool = False) -> Outcome:
             if not view.keep_call(e.target):
                 continue
             a = list(e.args) + sorted('%s=%s' % kv for kv in e.kwargs)
+            if _hands_over(e.target):
+                # the next element runs inside this call and may look back at this one (a synchronous ACK, a
+                # recirculated packet, a back-pressure probe): what has been stored so far is what it sees, so
+                # the stores made before the hand-over are ordered before it
+                events, writes = o.segments[-1]
+                for k in sorted(writes):
+                    events.append('write %s := %s' % (k, writes.pop(k)))
             o.segments[-1][0].append('call %s(%s)' % (e.target, ', '.join(a)))
         elif e.kind == 'yield':
             o.segments[-1][0].append('yield %s' % e.value)
